@@ -40,25 +40,31 @@ PROPS = {
     "C16": dict(
         prop_file="Properties/C16.v",
         check_module="C16Check",
-        theorems={
-            "C16_children_agree": [],
-            "C16_abstraction_injective": [],
-            "C16_get_card_mut_refines": [],
-            "C16_replace_card_refines": [],
-            "C16_remove_card_refines": [],
-            "C16_insert_card_refines": [],
-            "C16_get_card_refines": [],
-            "C16_step_refines_partial": [],
-            "C16_replace_back": [],
-            "C16_swap_fail_unchanged": [],
-            "C16_failed_edit_unchanged": [],
-            "C16_walk_complete_unique_partial": [],
-            "C16_visit_children_unfold": [],
-            "C16_swap_same_refuted": [],
-            "C16_call_insert_refuted": [],
-            "C16_get_depth_refuted": [],
-            "C16_remove_insert_fixed_refuted": [],
-        },
+        theorems={t: [] for t in [
+            "C16_children_agree",
+            "C16_abstraction_injective",
+            "C16_step_refines",
+            "C16_run_refines",
+            "C16_swap_cards_refines",
+            "C16_get_card_get_card_mut",
+            "C16_walk_complete_unique",
+            "C16_visit_children_unfold",
+            "C16_replace_back",
+            "C16_remove_insert",
+            "C16_remove_insert_top_level",
+            "C16_remove_insert_fixed_refuted",
+            "C16_swap_involutive",
+            "C16_swap_ancestor_fails_unchanged",
+            "C16_swap_fail_unchanged",
+            "C16_failed_edit_unchanged",
+            "C16_replace_local",
+            "C16_swap_local",
+            "C16_insert_local",
+            "C16_remove_local",
+            "C16_swap_same_legacy_refuted",
+            "C16_call_insert_legacy_refuted",
+            "C16_get_depth_legacy_refuted",
+        ]},
         n_quick=150, n_thorough=1500,
         gates=["kinds.all43", "op.get", "op.get_mut", "op.insert", "op.remove", "op.replace", "op.swap", "op.walk",
                "op.kids", "op.replace_child", "err.CardNotFound", "err.FunctionNotFound", "err.InvalidIndex",
@@ -84,8 +90,8 @@ PROPS = {
         assumptions=[
             "CardId (random, skipped by serde) is not modelled or compared",
             "indices are u32 in the implementation and nat in the model; the harness only issues small indices",
-            "after a caught panic the module is not compared further (no panic occurs on the pinned tree; "
-            "the model proves the unwraps and slice operations of the modelled paths cannot fail)",
+            "after a caught panic the module is not compared further (no panic occurs; C16_step_refines shows "
+            "the unwraps and slice operations of the modelled paths cannot fail)",
         ],
     ),
     "C12": dict(
